@@ -183,6 +183,10 @@ func checkC11(w *World, r *Report) {
 		r.Undecided("B-5", "ledger-semantics", "the ledger's overlay semantics could not be evaluated")
 	}
 	r.Floor("B-5", 2, "ledger overlay semantics")
+	// B-6: a delegatee (or stake record) that was deleted stays deleted: no write of
+	// the same record after its deletion (the commit applies removals before updates,
+	// so the emptied record — with stale SelfPower — would come back) (C01 D-6)
+	importNoResurrect(w, r, "B-6")
 	r.Floor("B-1", 12, "power bookkeeping")
 	r.Floor("B-2", 5, "one place per stake")
 	r.Floor("B-3", 3, "immutable stake identity")
@@ -1653,4 +1657,22 @@ func (w *World) findAtomDeep(fn *ssa.Function, depth int, pred func(atom) bool) 
 		}
 	}
 	return false
+}
+
+// importNoResurrect adopts the D-6 no-resurrect obligations under another rule name.
+func importNoResurrect(w *World, r *Report, rule string) {
+	tmp := NewReport(r.Prop, r.Tier)
+	d6d(w, tmp, consFuncs(NewExecCtx(w)))
+	n := 0
+	for _, o := range tmp.Obs {
+		if strings.HasPrefix(o.Key, "D-6:no-resurrect:") {
+			o.Rule = rule
+			o.Key = rule + ":" + strings.TrimPrefix(o.Key, "D-6:")
+			r.Obs = append(r.Obs, o)
+			n++
+		}
+	}
+	if n < 2 {
+		r.Undecided(rule, "no-resurrect", "fewer than 2 record deletions found in consensus context")
+	}
 }
